@@ -92,20 +92,6 @@ def optAns : Option JV → String
   | some v => "ok " ++ toWire v
   | none => "err"
 
-/-- path elements on which `Stream.setpath` (the fragment of `setpath` inside `fromstreamSpec`) is
-    the native: strings, integers 0 ≤ i < 2^29, and elements every `setpath` rejects -/
-def elemModelled : JV → Bool
-  | .num (.int i) => 0 ≤ i && i < 536870912
-  | .num _ => false
-  | .obj _ => false
-  | _ => true
-
-/-- `fromstreamSpec` models the fold on well-formed events `[path, leaf]` / `[path]` -/
-def eventModelled : JV → Bool
-  | .arr [.arr p, _] => p.all elemModelled
-  | .arr [.arr _] => true
-  | _ => false
-
 def isArr : JV → Bool
   | .arr _ => true
   | _ => false
@@ -125,7 +111,7 @@ def pairsLine (line : String) : String :=
       | "fromstream" =>
         match v with
         | .arr evs =>
-          if evs.all eventModelled then
+          if evs.all Pairs.eventOK then
             match Stream.fromstreamSpec evs with
             | .ok outs => optAns (some (.arr outs))
             | .error _ => "err"
